@@ -11,6 +11,18 @@ NOTE = ("Trusted base: the frozen effect / identity tables in kdverif (one reaso
         "the value-level behaviour of the property (see DESIGN.md section 4, 'N' lists).")
 
 CLAIMS = {
+    "C01": ("escape / def-use analysis of the per-sample context, pairing rules on the fuse / un-fuse loops, index-form normalisation, sibling tokenisers",
+            "Decides in ModeWrapper: the context given to the loaders is a dict created in the same invocation (None when none "
+            "is propagated), dominates the loader loop, is never stored on self, and is the object returned with return_ctx; "
+            "loaders are called as loader(idx, ctx); the result is items[0] iff one item else tuple(items), the pair iff "
+            "return_ctx; un-fusing stores component j of result i at fused_idxs[j] (plain results at their position) with "
+            "one enumerate each; the constructor collects a fused group's positions by iterating the declared group in order, "
+            "tests membership against the whole item list, pairs every position append with one loader-name append and adds "
+            "exactly one loader per item; a negative index is normalised to len+idx before any loader runs (in the loop's "
+            "function or at each of its call sites), slices / lists are served through self[i]; the ctx.<key> key is the item "
+            "minus exactly the tested prefix; all tokenisers use one separator and only mode_wrapper.py splits modes; "
+            "get_item / set_item / TorchWrapper address batch[index of item]; declared fused groups have projection "
+            "accessors. Delivered values for arbitrary mode strings are not decided."),
     "C03": ("RNG-source typing, falsy-zero default analysis against the constructor's own validators, loop-progress guards, dependence sets",
             "Decides for the 10 selection-wrapper constructors: generators are default_rng(seed=<seed parameter>), the global "
             "NumPy RNG (np.random / GlobalRng) is bound or drawn from only under 'seed is None', a class object used as a "
